@@ -57,7 +57,7 @@ fn append_fresh(scn: &Scenario, trace: &mut Vec<Value>, mode: &str) {
                 use crate::scenario::Step::*;
                 Some(match st {
                     Call { run } if *run == r => Call { run: 1 },
-                    Open { run, f, ok, defer } if *run == r => Open { run: 1, f: *f, ok: *ok, defer: *defer },
+                    Open { run, f, ok, defer, signal } if *run == r => Open { run: 1, f: *f, ok: *ok, defer: *defer, signal: *signal },
                     Signal { run, defer } if *run == r => Signal { run: 1, defer: *defer },
                     Poll { run } if *run == r => Poll { run: 1 },
                     Drop { run, f } if *run == r => Drop { run: 1, f: *f },
@@ -195,17 +195,30 @@ fn calls_of(edges: &[(usize, usize)], kind_mask: u64) -> Vec<BCall> {
 
 /// Access declarations: per function and type one of none / read / write.
 /// `code` is a base-3 number with n*types digits.
-fn access_of(n: usize, types: usize, mut code: u64) -> (Vec<Vec<usize>>, Vec<Vec<usize>>) {
+fn access_of(n: usize, types: usize, code: u64) -> (Vec<Vec<usize>>, Vec<Vec<usize>>) {
+    access_of_rw(n, types, code, 0)
+}
+
+/// As `access_of`; additionally a writer whose bit is set in `rw_mask` also lists the type as read
+/// (the same type in both `borrows()` and `borrow_muts()`).
+fn access_of_rw(n: usize, types: usize, mut code: u64, rw_mask: u64) -> (Vec<Vec<usize>>, Vec<Vec<usize>>) {
     let mut reads = vec![vec![]; n];
     let mut writes = vec![vec![]; n];
+    let mut bit = 0;
     for f in 0..n {
         for t in 1..=types {
             match code % 3 {
                 1 => reads[f].push(t),
-                2 => writes[f].push(t),
+                2 => {
+                    writes[f].push(t);
+                    if rw_mask >> bit & 1 == 1 {
+                        reads[f].push(t);
+                    }
+                }
                 _ => {}
             }
             code /= 3;
+            bit += 1;
         }
     }
     (reads, writes)
@@ -247,6 +260,9 @@ fn random_access(rng: &mut Rng, n: usize, types: usize, pct_none: u64) -> (Vec<V
                 reads[f].push(t);
             } else {
                 writes[f].push(t);
+                if rng.chance(1, 4) {
+                    reads[f].push(t); // the same type as read and as write
+                }
             }
         }
         // declaration order is the caller's business: shuffle it
@@ -274,6 +290,7 @@ fn cfg(api: &str, mutv: bool, control: bool) -> RunCfg {
         k: 0,
         include: true,
         pre_signal: false,
+        tx_drop: false,
     }
 }
 
@@ -344,6 +361,7 @@ pub fn call_cfgs(full: bool) -> Vec<RunCfg> {
                 c.include = include;
                 c.pre_signal = pre;
                 c.limit = limit;
+                c.tx_drop = pre && (out.len() % 2 == 0);
                 out.push(c);
             }
         }
@@ -398,6 +416,7 @@ fn random_cfg(rng: &mut Rng, streams: bool) -> RunCfg {
         if c.strategy == "poll_n" {
             c.k = rng.below(4) as u64;
         }
+        c.tx_drop = c.has_channel() && rng.chance(1, 3);
         return c;
     }
     let mut c = rng.pick(&bodies()).clone();
@@ -408,6 +427,7 @@ fn random_cfg(rng: &mut Rng, streams: bool) -> RunCfg {
         c.k = rng.below(4) as u64;
         c.include = rng.chance(1, 2);
         c.pre_signal = c.has_channel() && rng.chance(1, 6);
+        c.tx_drop = c.has_channel() && rng.chance(1, 3);
     }
     if c.api.ends_with("for_each") {
         c.limit = *rng.pick(&[-1, -1, 0, 1, 2, 3, 5]);
@@ -463,8 +483,10 @@ pub fn generate(p: &GenParams, out: &mut Out) {
                             if !sel.take() {
                                 continue;
                             }
-                            let (mut reads, mut writes) = access_of(n, types, code);
                             let h = mix(code, gi as u64 * 31 + ki as u64);
+                            // a third of the inputs: some writers also list the type as read
+                            let rw_mask = if h % 3 == 0 { mix(h, 0xAB) } else { 0 };
+                            let (mut reads, mut writes) = access_of_rw(n, types, code, rw_mask);
                             // declaration order within a function: ascending or descending type index
                             if h % 2 == 1 {
                                 for v in reads.iter_mut().chain(writes.iter_mut()) {
@@ -779,7 +801,7 @@ pub fn generate(p: &GenParams, out: &mut Out) {
                         if code != 0 && e.len() * 2 > n * (n - 1) / 2 + 1 {
                             continue;
                         }
-                        let (reads, writes) = access_of(n, 1, code);
+                        let (reads, writes) = access_of_rw(n, 1, code, if gi % 2 == 1 { mix(code, gi as u64) } else { 0 });
                         for (ci, c) in cfgs.iter().enumerate() {
                             if !focus_ok(c, &p.focus) || (p.focus == "conflict" && code == 0 && n > 1) {
                                 continue;
@@ -789,8 +811,10 @@ pub fn generate(p: &GenParams, out: &mut Out) {
                             }
                             let mut s = base_scn(format!("r{n}-{gi}-{code}-{ci}"), n, calls_of(e, (gi as u64) * 5), reads.clone(), writes.clone());
                             s.phases.push(runs_phase(vec![c.clone()]));
-                            let x = xopts_for(c, if n <= 3 { 3 } else { 2 });
-                            exhaustive(&s, &x, p.hooks, 64, 20_000, &mut emit);
+                            let mut x = xopts_for(c, if n <= 3 { 3 } else { 2 });
+                            // mid-poll signals: a completing function interrupts the run itself
+                            x.signal_inside = c.has_channel() && !c.pre_signal && (p.focus == "int" || (gi + ci) % 3 == 0);
+                            exhaustive(&s, &x, p.hooks || x.signal_inside, 64, 20_000, &mut emit);
                         }
                     }
                 }
@@ -818,6 +842,7 @@ pub fn generate(p: &GenParams, out: &mut Out) {
                 let (reads, writes) = if p.focus == "conflict" { random_access(&mut rng, n, types, 30) } else { (reads, writes) };
                 let mut x = xopts_for(&c, rng.below(4));
                 x.defer = rng.chance(1, 2);
+                x.signal_inside = rng.chance(1, 2);
                 let sub = rng.next();
                 if !sel.take() {
                     continue;
@@ -825,7 +850,7 @@ pub fn generate(p: &GenParams, out: &mut Out) {
                 let mut s = base_scn(format!("rr-{i}"), n, calls_of(&e, rng.next()), reads, writes);
                 s.phases.push(runs_phase(vec![c]));
                 let mut r2 = Rng::new(sub);
-                let (mut scn, mut trace) = random_walk(&s, &x, p.hooks, 6 * n + 12, &mut r2);
+                let (mut scn, mut trace) = random_walk(&s, &x, p.hooks || x.signal_inside, 6 * n + 12, &mut r2);
                 scn.id = s.id.clone();
                 if let Some(f) = trace.first_mut() {
                     f["scn"] = Value::String(scn.id.clone());
@@ -838,8 +863,14 @@ pub fn generate(p: &GenParams, out: &mut Out) {
             let mut rng = Rng::new(p.seed ^ 0x71DE);
             let cnt = if p.count > 0 { p.count } else if thorough { 400 } else { 60 };
             for i in 0..cnt {
-                let n = 20 + rng.below(if thorough { 60 } else { 45 });
-                let shape = rng.below(4);
+                // sizes around the usual fixed-size thresholds (32, 64, 128)
+                let n = match rng.below(8) {
+                    0 => 120 + rng.below(20),
+                    1 | 2 => 62 + rng.below(10),
+                    3 | 4 => 30 + rng.below(10),
+                    _ => 20 + rng.below(if thorough { 70 } else { 60 }),
+                };
+                let shape = rng.below(5);
                 let mut e: Vec<(usize, usize)> = Vec::new();
                 match shape {
                     0 => {}
@@ -853,6 +884,12 @@ pub fn generate(p: &GenParams, out: &mut Out) {
                             e.push((a, n));
                         }
                     }
+                    3 => {
+                        // a chain through all functions: long dependency path, early stops leave many unprocessed
+                        for a in 1..n {
+                            e.push((a, a + 1));
+                        }
+                    }
                     _ => {
                         let h = n / 2;
                         for a in 1..=h {
@@ -860,13 +897,23 @@ pub fn generate(p: &GenParams, out: &mut Out) {
                         }
                     }
                 }
-                let streams = p.focus == "stream" || rng.chance(1, 4);
+                let streams = p.focus == "stream" || (p.focus.is_empty() && rng.chance(1, 4));
                 let mut c = random_cfg(&mut rng, streams);
-                if !streams && rng.chance(2, 3) {
+                if !streams {
+                    for _ in 0..64 {
+                        if focus_ok(&c, &p.focus) {
+                            break;
+                        }
+                        c = random_cfg(&mut rng, false);
+                    }
+                }
+                if !streams && p.focus.is_empty() && rng.chance(1, 2) {
                     c.strategy = "none".into();
                     c.pre_signal = false;
                 }
-                let mut x = xopts_for(&c, 0);
+                let mut x = xopts_for(&c, *rng.pick(&[0usize, 2, 1000]));
+                x.fail_bias = x.max_fail > 2;
+                x.stream_style = *rng.pick(&[0u8, 1, 2, 2]);
                 x.defer = rng.chance(1, 2);
                 let sub = rng.next();
                 if !sel.take() {
@@ -894,7 +941,7 @@ pub fn generate(p: &GenParams, out: &mut Out) {
                         if code >= 3u64.pow(n as u32) {
                             continue;
                         }
-                        let (reads, writes) = access_of(n, 1, code);
+                        let (reads, writes) = access_of_rw(n, 1, code, if gi % 2 == 0 { mix(code, 7 + gi as u64) } else { 0 });
                         for (ci, c) in cfgs.iter().enumerate() {
                             if !focus_ok(c, &p.focus) {
                                 continue;
@@ -933,7 +980,7 @@ pub fn generate(p: &GenParams, out: &mut Out) {
                     }
                     c = random_cfg(&mut rng, true);
                 }
-                let x = ExploreOpts { drop_stream: rng.chance(1, 3), ..Default::default() };
+                let x = ExploreOpts { drop_stream: rng.chance(1, 3), stream_style: *rng.pick(&[0u8, 0, 1, 2]), ..Default::default() };
                 let sub = rng.next();
                 if !sel.take() {
                     continue;
@@ -971,7 +1018,9 @@ pub fn generate(p: &GenParams, out: &mut Out) {
                         let x = if streams {
                             ExploreOpts { drop_stream: n <= 2, ..Default::default() }
                         } else {
-                            xopts_for(&c, 2)
+                            let mut x = xopts_for(&c, 2);
+                            x.signal_inside = c.has_channel() && !c.pre_signal;
+                            x
                         };
                         exhaustive(&s, &x, true, 64, 4000, &mut emit);
                     }
@@ -1007,16 +1056,56 @@ pub fn generate(p: &GenParams, out: &mut Out) {
             let cnt = if p.count > 0 { p.count } else if thorough { 20_000 } else { 2500 };
             let max_n = if p.max_n > 0 { p.max_n } else { 6 };
             for i in 0..cnt {
-                let n = rng.below(max_n + 1);
-                let dens = *rng.pick(&[0u64, 20, 40, 60]);
-                let e = random_dag(&mut rng, n, dens, false);
+                // mostly small graphs; a third of the histories on graphs up to 16 functions
+                let n = if rng.chance(1, 3) { 7 + rng.below(12) } else { rng.below(max_n + 1) };
+                let dens = *rng.pick(&[0u64, 10, 20, 40, 60]);
+                let mut e = random_dag(&mut rng, n, dens, false);
+                if n >= 7 && rng.chance(1, 3) {
+                    // binary tree (breadth builds up under a slow consumer), optionally joined at a sink
+                    e = (2..=n).map(|c| (c / 2, c)).collect();
+                    if rng.chance(1, 3) {
+                        let leaves: Vec<usize> = (1..n).filter(|&a| 2 * a > n).collect();
+                        for a in leaves {
+                            if a != n {
+                                e.push((a, n));
+                            }
+                        }
+                        e.retain(|&(a, b)| !(b == n && a == n / 2) || true);
+                        e.sort();
+                        e.dedup();
+                    }
+                }
                 let none = *rng.pick(&[50u64, 80, 100]);
                 let (reads, writes) = random_access(&mut rng, n, 2, none);
                 let k = if overlap { 2 } else { 2 + rng.below(2) };
-                let mut runs = Vec::new();
+                let mut runs: Vec<RunCfg> = Vec::new();
                 for _ in 0..k {
                     let st = rng.chance(1, 4);
                     let mut c = random_cfg(&mut rng, st);
+                    // state left behind usually bites the same code path: often reuse the previous run's
+                    // family / mut-ness / direction
+                    if let Some(prev) = runs.last() {
+                        match rng.below(3) {
+                            0 => {
+                                c.mutv = prev.mutv;
+                                c.order = prev.order.clone();
+                                if c.order == "rev" {
+                                    c.with = true;
+                                }
+                            }
+                            1 if !prev.is_stream() && !c.is_stream() => {
+                                c.mutv = prev.mutv;
+                                c.order = prev.order.clone();
+                                c.with = c.with || c.order == "rev";
+                                c.api = (if prev.api.ends_with("fold") { *rng.pick(&["fold", "try_fold"]) } else { *rng.pick(&["for_each", "try_for_each"]) }).into();
+                                if !c.api.ends_with("for_each") {
+                                    c.limit = -1;
+                                }
+                                c.control = c.control && c.api == "try_for_each";
+                            }
+                            _ => {}
+                        }
+                    }
                     if overlap {
                         c.mutv = false;
                     }
@@ -1030,6 +1119,9 @@ pub fn generate(p: &GenParams, out: &mut Out) {
                     drop_stream: true,
                     spurious_polls: false,
                     defer: !overlap && rng.chance(1, 3),
+                    signal_inside: rng.chance(1, 3),
+                    fail_bias: false,
+                    stream_style: *rng.pick(&[0u8, 0, 1, 2]),
                 };
                 let sub = rng.next();
                 if !sel.take() {
@@ -1083,6 +1175,9 @@ pub fn generate(p: &GenParams, out: &mut Out) {
                                     drop_stream: !overlap,
                                     spurious_polls: false,
                                     defer: false,
+                                    signal_inside: false,
+                                    fail_bias: false,
+                                    stream_style: 0,
                                 };
                                 let mode = if overlap { "overlap" } else { "seq" };
                                 let mut emit2 = |sc: &Scenario, t: &[Value]| {
